@@ -286,8 +286,49 @@ def build():
                    "self.start_event_kwargs", "self.start_callback", "kwargs.*", "kwargs['queue'].waiter"],
          raises={}, note="only the wait-queue obligation at post_queue is of interest here (lifecycle: C07)")
 
+    # ------------------------------------------------------------------ coroutine handlers (add_async_handler)
+    C.exc("CancelledError", "BaseException")
+    C.exc("HandlerFailure", "Exception")
+    C.globals["asyncio.CancelledError"] = VCls("CancelledError")
+    C.cls("Future", fields=dict(outcome=Union(Const("result"), Const("cancelled"), Const("exception"))))
+
+    def fut_result(I, env, a, k):
+        o = I.force(I.read_field(env["self"].ref, "outcome"))
+        if I.ctx.branch(I.eq(o, VStr("cancelled"))):
+            I.raise_("CancelledError")
+        if I.ctx.branch(I.eq(o, VStr("exception"))):
+            I.raise_("HandlerFailure")
+        return NONE
+    C.ext("Future.result", model=fut_result, trusted_reason="asyncio.Future.result (A-ASYNCIO): returns, or raises "
+          "CancelledError for a cancelled task, or re-raises the coroutine's exception")
+    C.ext("Future.cancelled", model=lambda I, env, a, k: VBool(I.eq(I.read_field(env["self"].ref, "outcome"),
+                                                                    VStr("cancelled"))),
+          trusted_reason="asyncio.Future.cancelled (A-ASYNCIO)")
+    C.ext("Future.exception", model=lambda I, env, a, k: I.raise_("CancelledError")
+          if I.ctx.branch(I.eq(I.read_field(env["self"].ref, "outcome"), VStr("cancelled"))) else NONE,
+          trusted_reason="asyncio.Future.exception (A-ASYNCIO); the exception object itself is not modelled")
+    C.fn("EventManager._async_handler_done",
+         params=dict(queue=ObjS("QueuedEvent"), future=ObjS("Future")),
+         requires=[("the coroutine handler registered its wait when it was called (_async_handler_coroutine)",
+                    "queue.waiter")],
+         ensures=[("A1: when the coroutine handler's task is done - finished OR cancelled - its wait is cleared, so the "
+                   "queue event goes on to the later handlers and its completion callback",
+                   "queue.waiter == False and implies(queue.event is not None, queue.event.flag)")],
+         raises={"HandlerFailure": "future.outcome == 'exception'"},
+         modifies=["queue.waiter", "queue.event.flag"], allow_decorators=["staticmethod"])
+
     C.assume("A-ASYNCIO: Event.wait() returns only once the flag is set; the flag of a wait queue's event is set only "
              "by QueuedEvent.clear(), which frees the queue first")
     C.assume("A-RELY: a queue-event handler may call queue.wait() on the queue it receives; whoever holds a queue "
              "eventually calls clear() (liveness is not decided)")
     return C
+
+
+def build_extra():
+    """relay / boolean dispatch and the priority order of the handler list are C01's contracts on _run_handlers and
+    add_handler: they are verified here too (restricted copy of C01's set)"""
+    from . import C01
+    c01 = C01.build()
+    c01.pid = "C02b"
+    c01.only_verify = ["EventManager._run_handlers", "EventManager.add_handler"]
+    return [c01]
